@@ -153,6 +153,16 @@ def reachable_under(func, env, is_target, resolve=None):
             continue
         succ = [(i, s) for i, s in enumerate(blk.succs) if s is not None]
         val = None
+        if blk.cond is not None and getattr(blk, "tk", None) == "SwitchStmt":
+            try:
+                v = evaluate(blk.cond, env, resolve=resolve)
+            except (NotPure, ValueError, ZeroDivisionError):
+                v = None
+            if v is not None:
+                kinds = [(func.edge_kind(b, i), s) for i, s in succ]
+                hit = [s for k, s in kinds if k and k[0] == "case" and k[1] is not None and k[1] <= v <= (k[2] if k[2] is not None else k[1])]
+                stack.extend(hit if hit else [s for k, s in kinds if k == ("default",)])
+                continue
         if blk.cond is not None and len(succ) >= 2 and all(func.edge_kind(b, i) in (True, False) for i, _ in succ):
             try:
                 val = bool(evaluate(blk.cond, env, resolve=resolve))
